@@ -79,15 +79,19 @@ Proof.
     destruct (allocs_of da 0); auto. now apply gpu_coupled_remove.
 Qed.
 
+Lemma ledger_ok_true b l minors per m : b = true -> ledger_ok b l minors per m -> ledger_ok true l minors per m.
+Proof. intros ->. auto. Qed.
+
 Lemma inv_schedule s p rq da :
   ugood s -> wgood s -> raw_nonneg rq = true -> lookup p (envrec s) = None ->
-  allocate (ledgers s) (infos s) rq = ADone da -> inv_ok (ledgers s) ->
+  sched_ok (nkind s) (ledgers s) rq = true ->
+  allocate (nkind s) (ledgers s) (infos s) rq = ADone da -> inv_ok (ledgers s) ->
   inv_ok (cache_update true (ledgers s) p da).
 Proof.
-  intros U W NN Lp A [N C].
+  intros U W NN Lp So A [N C].
   assert (G : forall t, lgood (ledger_of (ledgers s) t)) by (intros t; apply (good_lgood s t U W)).
-  pose proof (allocate_done _ _ _ _ G A) as D.
-  pose proof (allocate_done_wf _ _ _ _ G NN A) as Wd.
+  pose proof (allocate_done _ _ _ _ _ G A) as D.
+  pose proof (allocate_done_wf _ _ _ _ _ G NN A) as Wd.
   assert (Hp : forall t, (t < 3)%nat -> aset_mem p (aset (ledger_of (ledgers s) t)) = false).
   { intros t Ht. pose proof (ug_cons _ U t Ht p) as Cp. now rewrite Lp in Cp. }
   assert (Step : forall t, (t < 3)%nat ->
@@ -98,7 +102,13 @@ Proof.
     destruct (allocs_of da t) as [|a0 al0] eqn:Ea; [split; auto; intros ->; exact C|].
     rewrite <- Ea in *.
     destruct (treq_of rq t) as [| |per count sh] eqn:Et; try (rewrite D in Ea; discriminate).
-    destruct D as [_ [ND Hall]]. apply treq_spec in Et as [_ [Hper [E2 _]]]. specialize (Hper NN).
+    destruct D as [_ [ND Hall0]].
+    pose proof (sched_ok_pfit _ _ _ _ _ _ _ So Et) as Pf.
+    assert (Hall : forall a, In a (allocs_of da t) ->
+              ledger_ok true (ledger_of (ledgers s) t) (minors_of (infos s) t) per (fst a) /\
+              granted t (total (ledger_of (ledgers s) t)) per a).
+    { intros a Ha. destruct (Hall0 a Ha) as [H1 H2]. split; auto. eapply ledger_ok_true; eauto. }
+    apply treq_spec in Et as [_ [Hper [E2 _]]]. specialize (Hper NN).
     set (l := ledger_of (ledgers s) t) in *.
     assert (Gl' : lgood (ledger_add l p (allocs_of da t))).
     { apply ledger_add_good; [apply G|now apply dallocs_wf_t]. }
@@ -134,16 +144,18 @@ Proof.
 Qed.
 
 (* ------------------------------------------------------------------ the allocation clauses *)
-Lemma type_done_sound ls infos rq t al :
-  lgood (ledger_of ls t) -> type_done ls infos rq t al -> alloc_sound_t ls infos t rq al = true.
+Lemma type_done_sound kind ls infos rq t al :
+  lgood (ledger_of ls t) -> sched_ok kind ls rq = true ->
+  type_done kind ls infos rq t al -> alloc_sound_t ls infos t rq al = true.
 Proof.
-  intros G D. unfold type_done in D. unfold alloc_sound_t.
-  destruct (treq_of rq t) as [| |per count sh]; try (now rewrite D).
+  intros G So D. unfold type_done in D. unfold alloc_sound_t.
+  destruct (treq_of rq t) as [| |per count sh] eqn:Et; try (now rewrite D).
+  pose proof (sched_ok_pfit _ _ _ _ _ _ _ So Et) as Pf.
   destruct D as [Len [ND Hall]]. rewrite !andb_true_iff. split; [split|].
   - apply Nat.eqb_eq. exact Len.
   - now apply nodupn_NoDup.
   - apply forallb_forall. intros a Ha. destruct (Hall a Ha) as [[Hin [f [Ef [R Z]]]] [G0 [G1 [Gn Gz]]]].
-    rewrite !andb_true_iff. split; [split|].
+    specialize (R Pf). rewrite !andb_true_iff. split; [split|].
     + now apply memn_In.
     + unfold fits_exposed. apply forallb_forall. intros k _.
       destruct (rget (ores (dget (total (ledger_of ls t)) (fst a))) k) as [T|] eqn:ET; auto.
@@ -172,11 +184,11 @@ Qed.
 
 Lemma step_rec s o : envrec (fst (step s o)) = next_rec (envrec s) o (snd (step s o)).
 Proof.
-  unfold next_rec. destruct o as [inv|p rq|p|p|p|p al| |p al|p|p rq vs]; cbn [step].
+  unfold next_rec. destruct o as [inv|p rq|p|p|p|p al| |p al|p|p rq vs|kind]; cbn [step].
   - reflexivity.
   - destruct (lookup p (envrec s)) as [x|] eqn:L; [reflexivity|].
-    destruct (allocate (ledgers s) (infos s) rq) as [|code|da] eqn:A; try reflexivity.
-    destruct (allocate_fail_codes _ _ _ _ A) as [-> | [-> | ->]]; reflexivity.
+    destruct (allocate (nkind s) (ledgers s) (infos s) rq) as [|code|da] eqn:A; try reflexivity.
+    destruct (allocate_fail_codes _ _ _ _ _ A) as [-> | [-> | ->]]; reflexivity.
   - destruct (lookup p (envrec s)) as [[da [|]]|] eqn:L; reflexivity.
   - destruct (lookup p (envrec s)) as [[da b]|] eqn:L; reflexivity.
   - destruct (lookup p (envrec s)) as [[da b]|] eqn:L; reflexivity.
@@ -185,6 +197,7 @@ Proof.
   - destruct (lookup p (envrec s)) as [[old b]|] eqn:L; reflexivity.
   - destruct (lookup p (envrec s)) as [[da b]|] eqn:L; reflexivity.
   - cbn [fst snd o_code out_code]. now destruct (negb _).
+  - reflexivity.
 Qed.
 
 (* ------------------------------------------------------------------ synchronisation of the checker's tracking *)
@@ -194,7 +207,8 @@ Record sync (s : state) (k : track) : Prop := mkSync {
   sy_u : ugood s;
   sy_w : k_wf k = true -> wgood s;
   sy_inv : k_wf k && k_env k = true -> inv_ok (ledgers s);
-  sy_rec : k_rec k = envrec s
+  sy_rec : k_rec k = envrec s;
+  sy_kind : k_kind k = nkind s
 }.
 
 Lemma init_sync : sync init_state init_track.
@@ -208,8 +222,21 @@ Qed.
 Lemma step_infos s o :
   infos (fst (step s o)) = match o with ORefresh inv => inv | _ => infos s end.
 Proof.
-  destruct o as [inv|p rq|p|p|p|p al| |p al|p|p rq vs]; cbn [step]; auto.
-  - destruct (lookup p (envrec s)); auto. destruct (allocate _ _ _); auto.
+  destruct o as [inv|p rq|p|p|p|p al| |p al|p|p rq vs|kind]; cbn [step]; auto.
+  - destruct (lookup p (envrec s)); auto. destruct (allocate _ _ _ _); auto.
+  - destruct (lookup p (envrec s)) as [[da [|]]|]; auto.
+  - destruct (lookup p (envrec s)) as [[da b]|]; auto.
+  - destruct (lookup p (envrec s)) as [[da b]|]; auto.
+  - destruct (lookup p (envrec s)); auto.
+  - destruct (lookup p (envrec s)) as [[da b]|]; auto.
+  - destruct (lookup p (envrec s)) as [[da b]|]; auto.
+Qed.
+
+Lemma step_kind s o :
+  nkind (fst (step s o)) = match o with ONodeKind kind => kind | _ => nkind s end.
+Proof.
+  destruct o as [inv|p rq|p|p|p|p al| |p al|p|p rq vs|kind]; cbn [step]; auto.
+  - destruct (lookup p (envrec s)); auto. destruct (allocate _ _ _ _); auto.
   - destruct (lookup p (envrec s)) as [[da [|]]|]; auto.
   - destruct (lookup p (envrec s)) as [[da b]|]; auto.
   - destruct (lookup p (envrec s)) as [[da b]|]; auto.
@@ -221,11 +248,12 @@ Qed.
 (* operations that are no environment events keep the invariant *)
 Lemma step_inv s o :
   ugood s -> wgood s -> op_wf o = true -> is_env_op o = false ->
+  match o with OSchedule _ rq => sched_ok (nkind s) (ledgers s) rq = true | _ => True end ->
   inv_ok (ledgers s) -> inv_ok (ledgers (fst (step s o))).
 Proof.
-  intros U W Hwf He I. destruct o as [inv|p rq|p|p|p|p al| |p al|p|p rq vs]; try discriminate; cbn [step].
+  intros U W Hwf He So I. destruct o as [inv|p rq|p|p|p|p al| |p al|p|p rq vs|kind]; try discriminate; cbn [step].
   - destruct (lookup p (envrec s)) as [x|] eqn:L; auto.
-    destruct (allocate (ledgers s) (infos s) rq) as [|code|da] eqn:A; auto.
+    destruct (allocate (nkind s) (ledgers s) (infos s) rq) as [|code|da] eqn:A; auto.
     cbn [fst ledgers]. eapply inv_schedule; eauto.
   - destruct (lookup p (envrec s)) as [[da [|]]|] eqn:L; auto. cbn [fst forget ledgers].
     apply inv_remove; auto. eapply wg_rec; eauto.
@@ -237,6 +265,7 @@ Proof.
   - destruct (lookup p (envrec s)) as [[da b]|] eqn:L; auto. cbn [fst forget ledgers].
     apply inv_remove; auto. eapply wg_rec; eauto.
   - cbn [fst]. exact I.
+  - cbn [fst ledgers]. exact I.
 Qed.
 
 (* operations whose output marks them as no-ops leave every ledger alone *)
@@ -244,10 +273,10 @@ Lemma step_frame s o :
   ugood s -> is_frame o (o_code (snd (step s o))) = true ->
   forall t, (t < 3)%nat -> ledger_of (ledgers (fst (step s o))) t = ledger_of (ledgers s) t.
 Proof.
-  intros U. destruct o as [inv|p rq|p|p|p|p al| |p al|p|p rq vs]; cbn [step].
+  intros U. destruct o as [inv|p rq|p|p|p|p al| |p al|p|p rq vs|kind]; cbn [step].
   - cbn. discriminate.
   - destruct (lookup p (envrec s)) as [x|] eqn:L; auto.
-    destruct (allocate (ledgers s) (infos s) rq) as [|code|da] eqn:A; auto.
+    destruct (allocate (nkind s) (ledgers s) (infos s) rq) as [|code|da] eqn:A; auto.
     cbn. discriminate.
   - destruct (lookup p (envrec s)) as [[da [|]]|] eqn:L; auto. cbn. discriminate.
   - destruct (lookup p (envrec s)) as [[da b]|] eqn:L; auto. intros _ t Ht. cbn [fst ledgers].
@@ -260,23 +289,25 @@ Proof.
   - destruct (lookup p (envrec s)) as [[old b]|] eqn:L; auto. cbn. discriminate.
   - destruct (lookup p (envrec s)) as [[da b]|] eqn:L; auto. cbn. discriminate.
   - cbn [fst]. auto.
+  - cbn [fst ledgers]. auto.
 Qed.
 
 Lemma check_schedule_ok s k p rq :
   sync s k -> wgood s -> raw_nonneg rq = true ->
   check_schedule k rq (snd (step s (OSchedule p rq))) = 0.
 Proof.
-  intros Sy W NN. unfold check_schedule. rewrite (sy_prev _ _ Sy), (sy_infos _ _ Sy).
+  intros Sy W NN. unfold check_schedule. rewrite (sy_prev _ _ Sy), (sy_infos _ _ Sy), (sy_kind _ _ Sy).
   assert (G : forall t, lgood (ledger_of (ledgers s) t)) by (intros t; apply (good_lgood s t (sy_u _ _ Sy) W)).
   cbn [step]. destruct (lookup p (envrec s)) as [x|] eqn:L; [reflexivity|].
-  destruct (allocate (ledgers s) (infos s) rq) as [|code|da] eqn:A; cbn [snd o_code out_code o_allocs].
+  destruct (allocate (nkind s) (ledgers s) (infos s) rq) as [|code|da] eqn:A; cbn [snd o_code out_code o_allocs].
   - unfold c_skip. cbn [Z.eqb Pos.eqb]. unfold chk. apply allocate_skip in A. now rewrite A.
-  - destruct (allocate_fail _ _ _ _ G A) as [[-> H]|[-> H]];
+  - destruct (allocate_fail _ _ _ _ _ G A) as [[-> H]|[-> H]];
       unfold c_unresolvable, c_unsched; cbn [Z.eqb Pos.eqb]; unfold chk; now rewrite H.
   - unfold c_ok. cbn [Z.eqb]. unfold chk.
+    destruct (sched_ok (nkind s) (ledgers s) rq) eqn:So; [|reflexivity]. cbn [negb orb].
     assert (H : forallb (fun t => alloc_sound_t (ledgers s) (infos s) t rq (allocs_of da t)) type_ids = true).
     { apply forallb_forall. intros t Ht. assert (t < 3)%nat by (cbn in Ht; lia).
-      apply type_done_sound; auto. eapply allocate_done; eauto. }
+      apply (type_done_sound (nkind s)); auto. eapply allocate_done; eauto. }
     now rewrite H.
 Qed.
 
@@ -298,12 +329,14 @@ Proof.
   assert (Wf' : k_wf k && op_wf o = true -> wgood (fst (step s o))).
   { intros H. apply andb_prop in H as [H1 H2]. apply W'; auto. now apply Sy. }
   assert (Inv' : k_wf k && op_wf o = true ->
-                 k_env k && (negb (is_env_op o) || inv_okb (ledgers (fst (step s o)))) = true ->
+                 k_env k && (negb (is_env_op o) || inv_okb (ledgers (fst (step s o)))) && step_ok k o = true ->
                  inv_okb (ledgers (fst (step s o))) = true).
-  { intros H1 H2. apply andb_prop in H1 as [Hw Ho]. apply andb_prop in H2 as [He H2].
+  { intros H1 H2. apply andb_prop in H1 as [Hw Ho]. apply andb_prop in H2 as [H2 Hs].
+    apply andb_prop in H2 as [He H2].
     destruct (is_env_op o) eqn:Eo; [exact H2|].
-    apply inv_okb_spec. apply step_inv; auto; [now apply Sy|].
-    apply (sy_inv _ _ Sy). now rewrite Hw, He. }
+    apply inv_okb_spec. apply step_inv; auto; [now apply Sy| |].
+    - unfold step_ok in Hs. rewrite (sy_prev _ _ Sy), (sy_kind _ _ Sy) in Hs. destruct o; auto.
+    - apply (sy_inv _ _ Sy). now rewrite Hw, He. }
   split.
   - unfold check_step. apply first_nz_zero. intros c Hc.
     destruct Hc as [<-|[<-|[<-|[<-|[<-|[<-|[]]]]]]].
@@ -314,20 +347,21 @@ Proof.
       apply forallb_forall. intros t _. apply used_eq_sumb_complete.
       apply (lg_sum _ (good_lgood _ t U' (Wf' eq_refl))).
     + apply chk_zero. destruct (k_wf k && op_wf o) eqn:Hw; auto. cbn [andb].
-      destruct (k_env k && (negb (is_env_op o) || inv_okb (ledgers (fst (step s o))))) eqn:He; auto.
+      destruct (k_env k && (negb (is_env_op o) || inv_okb (ledgers (fst (step s o)))) && step_ok k o) eqn:He; auto.
     + destruct (k_wf k && op_wf o) eqn:Hw; auto. destruct o; auto.
       * apply andb_prop in Hw as [Hw Ho]. apply check_schedule_ok; auto. now apply Sy.
       * apply andb_prop in Hw as [Hw Ho]. cbn [step snd].
-        apply check_preempt_model; [apply Sy|apply Sy|].
+        apply check_preempt_model; [apply Sy|apply Sy|apply Sy|].
         intros t. apply good_lgood; [exact U|now apply Sy].
     + apply chk_zero. destruct (is_frame o (o_code (snd (step s o)))) eqn:F; auto. cbn [negb orb].
       rewrite (sy_prev _ _ Sy). apply ledgers_eqb_same. now apply step_frame.
     + apply chk_zero. apply forallb_forall. intros t Ht. assert (t < 3)%nat by (cbn in Ht; lia).
       rewrite (sy_rec _ _ Sy), <- step_rec. apply cons_consb. now apply U'.
-  - constructor; cbn [next_track k_prev k_infos k_wf k_env k_rec]; auto.
+  - constructor; cbn [next_track k_prev k_infos k_wf k_env k_rec k_kind]; auto.
     + rewrite step_infos, (sy_infos _ _ Sy). reflexivity.
     + intros H. apply inv_okb_spec. apply andb_prop in H as [H1 H2]. now apply Inv'.
     + rewrite (sy_rec _ _ Sy). symmetry. apply step_rec.
+    + rewrite step_kind, (sy_kind _ _ Sy). reflexivity.
 Qed.
 
 Theorem prop_from_run s k ops : sync s k -> prop_from k ops (run_from s ops) = 0.
